@@ -22,6 +22,17 @@ import (
 // RecordedFuncs: key "rel|Name" or "rel|Type.Name" -> signature key.
 var RecordedFuncs map[string]string
 
+// Family maps a configuration to the recorded configuration whose file set it shares.
+func Family(cfgID string) string {
+	switch cfgID {
+	case "arm64":
+		return "purego"
+	case "f32pure", "386":
+		return "f32"
+	}
+	return cfgID
+}
+
 // SigKey renders a function's receiver, parameter and result types without names.
 func SigKey(f *types.Func) string {
 	sig := f.Type().(*types.Signature)
@@ -108,8 +119,9 @@ func (p *Program) resolveRenames() {
 	if len(RecordedFuncs) == 0 {
 		return
 	}
+	fam := Family(p.Cfg.ID) + "|"
 	for _, pk := range p.Pkgs {
-		rel := Rel(pk.Types)
+		rel := fam + Rel(pk.Types)
 		present := map[string]bool{}
 		var fresh []*types.Func
 		for _, f := range declaredFuncs(pk.Types) {
@@ -117,6 +129,7 @@ func (p *Program) resolveRenames() {
 			if k == "" {
 				continue
 			}
+			k = fam + k
 			if _, ok := RecordedFuncs[k]; ok {
 				present[k] = true
 			} else if !f.Exported() {
@@ -131,7 +144,7 @@ func (p *Program) resolveRenames() {
 		}
 		sort.Strings(missing)
 		for _, k := range missing {
-			name := k[strings.IndexByte(k, '|')+1:]
+			name := k[strings.LastIndexByte(k, '|')+1:]
 			recvType := ""
 			if i := strings.IndexByte(name, '.'); i >= 0 {
 				recvType = name[:i]
@@ -139,7 +152,7 @@ func (p *Program) resolveRenames() {
 			var cands []*types.Func
 			for _, f := range fresh {
 				fk := funcKey(f)
-				fname := fk[strings.IndexByte(fk, '|')+1:]
+				fname := fk[strings.LastIndexByte(fk, '|')+1:]
 				frecv := ""
 				if i := strings.IndexByte(fname, '.'); i >= 0 {
 					frecv = fname[:i]
@@ -150,8 +163,9 @@ func (p *Program) resolveRenames() {
 			}
 			if len(cands) == 1 {
 				if _, taken := p.renamed[cands[0]]; !taken {
-					p.renamed[cands[0]] = k
-					p.byRecorded[k] = cands[0]
+					plain := k[len(fam):]
+					p.renamed[cands[0]] = plain
+					p.byRecorded[plain] = cands[0]
 				}
 			}
 		}
@@ -234,7 +248,7 @@ func DeclaredGlobals(tp *types.Package) map[string]string {
 	for _, n := range sc.Names() {
 		switch o := sc.Lookup(n).(type) {
 		case *types.Var, *types.Const:
-			out[globalKey(o)] = types.TypeString(o.Type(), func(p *types.Package) string { return p.Path() })
+			out[globalKey(o)] = globalSig(o)
 		}
 	}
 	return out
@@ -245,9 +259,9 @@ func (p *Program) resolveGlobalRenames() {
 	if len(RecordedGlobals) == 0 {
 		return
 	}
-	q := func(tp *types.Package) string { return tp.Path() }
+	fam := Family(p.Cfg.ID) + "|"
 	for _, pk := range p.Pkgs {
-		rel := Rel(pk.Types)
+		rel := fam + Rel(pk.Types)
 		sc := pk.Types.Scope()
 		present := map[string]bool{}
 		var fresh []types.Object
@@ -258,7 +272,7 @@ func (p *Program) resolveGlobalRenames() {
 			default:
 				continue
 			}
-			k := globalKey(o)
+			k := fam + globalKey(o)
 			if _, ok := RecordedGlobals[k]; ok {
 				present[k] = true
 			} else if !o.Exported() {
@@ -276,7 +290,7 @@ func (p *Program) resolveGlobalRenames() {
 		for _, k := range missing {
 			var cands []types.Object
 			for _, o := range fresh {
-				if !used[o] && hasString(RecordedGlobals[k], types.TypeString(o.Type(), q)) {
+				if !used[o] && hasString(RecordedGlobals[k], globalSig(o)) {
 					cands = append(cands, o)
 				}
 			}
@@ -289,9 +303,9 @@ func (p *Program) resolveGlobalRenames() {
 			}
 			if len(cands) == 1 && same == 1 {
 				used[cands[0]] = true
-				name := k[strings.IndexByte(k, '|')+1:]
+				name := k[strings.LastIndexByte(k, '|')+1:]
 				renamedObjs.Store(cands[0], name)
-				p.byRecordedGlobal[k] = cands[0]
+				p.byRecordedGlobal[k[len(fam):]] = cands[0]
 			}
 		}
 	}
@@ -306,6 +320,16 @@ func ObjSimpleName(o types.Object) string {
 		return v.(string)
 	}
 	return o.Name()
+}
+
+// globalSig: the type of a package-level object; for constants also the value (two renamed
+// constants of one type are told apart by what they denote).
+func globalSig(o types.Object) string {
+	t := types.TypeString(o.Type(), func(p *types.Package) string { return p.Path() })
+	if c, ok := o.(*types.Const); ok && c.Val() != nil {
+		return t + " = " + c.Val().ExactString()
+	}
+	return t
 }
 
 func hasString(l []string, s string) bool {
